@@ -63,6 +63,22 @@ Inductive pay := PEnd | PFwd | PBad.   (* endOfCandidates / forwarded to the med
 Inductive bad := BJson | BNoType | BNoBody.
 Inductive mres := MOk | MFail | MTimeout.
 
+(* ---- the close of a session in its phases ----------------------------------
+   deleteSessionLocked + ProxySession.Close run in this order; each constructor
+   names the window that FOLLOWS the step:
+     PhList   : the session was deleted from ProxyServer.sessions, its connection
+                detached (SetClient(nil)) and told bye; the session context is alive
+     PhCtx    : closeFunc() ran, the session context is cancelled
+     PhPubs   : clearPublishers() ran
+     PhSubs   : clearSubscribers() ran (Close waits for remotePublishersLock)
+     PhRemote : clearRemotePublishers() ran; Close waits in proxy.DeleteSession for
+                the write lock of the sessions list (held off by every reader, e.g.
+                IterateSessions) and returns
+   A slot (w, tok, r) says: the media server finishes creation tok with r while
+   the close is in window w.                                                    *)
+Inductive phase := PhList | PhCtx | PhPubs | PhSubs | PhRemote.
+Definition slot := (phase * N * mres)%type.
+
 Inductive op :=
 | OHello (c : N) (now : Z) (t : token)
 | OResume (c : N) (sid : N)       (* hello carrying the resume id the server issued for sid *)
@@ -75,7 +91,9 @@ Inductive op :=
 | ODrop (c : N)                   (* the client closes the connection *)
 | OExpire (sid : N)               (* sid has not been used for sessionExpirationTime; expireSessions runs *)
 | OMcuLost                        (* onMcuDisconnected *)
-| OMcuDone (tok : N) (r : mres).  (* the media server finishes creation tok *)
+| OMcuDone (tok : N) (r : mres)   (* the media server finishes creation tok *)
+| OByeIn (c : N) (sched : list slot)      (* bye; the close runs in phases, the creations of sched complete inside it *)
+| OExpireIn (sid : N) (sched : list slot). (* expiry likewise *)
 
 (* ---- state ---------------------------------------------------------------- *)
 Record sess := { ss_sid : N; ss_conn : N; ss_pubs : list N; ss_subs : list N }.
@@ -312,6 +330,92 @@ Definition mcu_done (st : state) (tok : N) (r : mres) : state * outcome :=
       end
   end.
 
+(* ---- the close in phases ------------------------------------------------------
+   While the close runs the session object still exists (the handlers of creations
+   in flight hold a pointer to it); here it stays in `sessions` until the last
+   step, with its connection already detached, so the continuation of a creation
+   finds its tables.                                                              *)
+Definition phase_eqb (a b : phase) : bool :=
+  match a, b with
+  | PhList, PhList | PhCtx, PhCtx | PhPubs, PhPubs | PhSubs, PhSubs | PhRemote, PhRemote => true
+  | _, _ => false
+  end.
+(* is the session context cancelled in window w *)
+Definition cancelled (w : phase) : bool := match w with PhList => false | _ => true end.
+Definition is_ok (r : mres) : bool := match r with MOk => true | _ => false end.
+
+(* the request is over: its connection's message loop continues *)
+Definition unpend (st : state) (p : pend) : state :=
+  let c := p_conn p in
+  {| next_sid := next_sid st; next_obj := next_obj st; sessions := sessions st;
+     conns := upd_conn (conns st) c
+                {| cs_sess := cs_sess (conns st c); cs_closed := cs_closed (conns st c); cs_busy := false |};
+     clients := clients st; mopen := mopen st;
+     pendings := filter (fun q => negb (N.eqb (p_tok q) (p_tok p))) (pendings st) |}.
+
+(* a completion while session sid is being closed.  Its own successful creation,
+   context already cancelled: StoreX + StoreClient, then ctx.Err() != nil:
+   DeleteX, DeleteClient, Close of the object - nothing remains (repaired code).
+   Context still alive (or code as found): stored in the tables of the closing
+   session like for a live one; the answer is queued in the detached session.
+   Creations of other sessions, failures and timeouts: as always.                *)
+Definition mcu_done_in (canc : bool) (sid : N) (st : state) (tok : N) (r : mres) : state * outcome :=
+  match find (fun p => N.eqb (p_tok p) tok) (pendings st) with
+  | Some p =>
+      if N.eqb (p_sid p) sid && is_ok r && canc && recheck then done (unpend st p) []
+      else mcu_done st tok r
+  | None => mcu_done st tok r
+  end.
+
+(* the completions scheduled for window w, in the order of the schedule *)
+Fixpoint window (w : phase) (sid : N) (sched : list slot) (st : state) : state * list (N * msg) :=
+  match sched with
+  | [] => (st, [])
+  | (w', tok, r) :: rest =>
+      if phase_eqb w' w then
+        let '(st1, o1) := mcu_done_in (cancelled w) sid st tok r in
+        let '(st2, m2) := window w sid rest st1 in
+        (st2, msgs o1 ++ m2)
+      else window w sid rest st
+  end.
+
+Definition tab (k : kind) (s : sess) : list N := match k with Pub => ss_pubs s | Sub => ss_subs s end.
+Definition clear_tab (k : kind) (s : sess) : sess :=
+  match k with
+  | Pub => {| ss_sid := ss_sid s; ss_conn := ss_conn s; ss_pubs := []; ss_subs := ss_subs s |}
+  | Sub => {| ss_sid := ss_sid s; ss_conn := ss_conn s; ss_pubs := ss_pubs s; ss_subs := [] |}
+  end.
+(* clearPublishers / clearSubscribers: what the table holds now is unregistered and closed *)
+Definition clear_kind (k : kind) (sid : N) (st : state) : state :=
+  match find_sess sid (sessions st) with
+  | None => st
+  | Some s =>
+      {| next_sid := next_sid st; next_obj := next_obj st;
+         sessions := upd_sess sid (clear_tab k) (sessions st);
+         conns := conns st;
+         clients := drop_ids (tab k s) (clients st);
+         mopen := drop_ids (tab k s) (mopen st);
+         pendings := pendings st |}
+  end.
+
+Definition close_phased (st : state) (sid : N) (r : reason) (sched : list slot) : state * list (N * msg) :=
+  match find_sess sid (sessions st) with
+  | None => (st, [])
+  | Some s =>
+      let c0 := ss_conn s in
+      let out0 := send st c0 (MBye r) in
+      let st0 := {| next_sid := next_sid st; next_obj := next_obj st; sessions := sessions st;
+                    conns := upd_conn (conns st) c0
+                               {| cs_sess := None; cs_closed := true; cs_busy := cs_busy (conns st c0) |};
+                    clients := clients st; mopen := mopen st; pendings := pendings st |} in
+      let '(st1, m1) := window PhList sid sched st0 in
+      let '(st2, m2) := window PhCtx sid sched st1 in
+      let '(st3, m3) := window PhPubs sid sched (clear_kind Pub sid st2) in
+      let '(st4, m4) := window PhSubs sid sched (clear_kind Sub sid st3) in
+      let '(st5, m5) := window PhRemote sid sched st4 in
+      (set_sessions st5 (del_sess sid (sessions st5)), out0 ++ m1 ++ m2 ++ m3 ++ m4 ++ m5)
+  end.
+
 Definition all_ids (l : list sess) : list N := flat_map (fun s => ss_pubs s ++ ss_subs s) l.
 Definition clear_sess (s : sess) : sess :=
   {| ss_sid := ss_sid s; ss_conn := ss_conn s; ss_pubs := []; ss_subs := [] |}.
@@ -405,6 +509,14 @@ Definition step (st : state) (o : op) : state * outcome :=
               pendings := pendings st |}
            (flat_map (fun s => send st (ss_conn s) MEvBackendDisc) (sessions st))
   | OMcuDone tok r => mcu_done st tok r
+  | OByeIn c sched =>
+      on_conn st c (fun b =>
+        match b with
+        | None => done st (send st c (MErr EHelloExpected))
+        | Some sid => let '(st', out) := close_phased st sid RClosed sched in done st' out
+        end)
+  | OExpireIn sid sched =>
+      let '(st', out) := close_phased st sid RExpired sched in done st' out
   end.
 
 End Oracles.
